@@ -35,13 +35,13 @@ bv256 __CPROVER_uninterpreted_montmul(bv256, bv256);
 #endif
 
 void sm2_z256_modp_to_mont(const sm2_z256_t a, uint64_t r[4])
-REQUIRES(R_OK(a, 32) && W_OK(r, 32))
+REQUIRES(RD_OK(a, 32) && WR_OK(r, 32))
 ASSIGNS(OBJ_UPTO(r, 32))
 ENSURES(V256(r) == TOMONT(MK4(OLD(a[3]), OLD(a[2]), OLD(a[1]), OLD(a[0]))))
 ;
 
 void sm2_z256_modp_from_mont(sm2_z256_t r, const sm2_z256_t a)
-REQUIRES(R_OK(a, 32) && W_OK(r, 32))
+REQUIRES(RD_OK(a, 32) && WR_OK(r, 32))
 ASSIGNS(OBJ_UPTO(r, 32))
 ENSURES(V256(r) == FROMMONT(MK4(OLD(a[3]), OLD(a[2]), OLD(a[1]), OLD(a[0]))))
 /* the canonical representative */
@@ -49,21 +49,21 @@ ENSURES(VAL4(r) < BV_P)
 ;
 
 void sm2_z256_modp_mont_mul(sm2_z256_t r, const sm2_z256_t a, const sm2_z256_t b)
-REQUIRES(R_OK(a, 32) && R_OK(b, 32) && W_OK(r, 32))
+REQUIRES(RD_OK(a, 32) && RD_OK(b, 32) && WR_OK(r, 32))
 ASSIGNS(OBJ_UPTO(r, 32))
 ENSURES(V256(r) == __CPROVER_uninterpreted_montmul(MK4(OLD(a[3]), OLD(a[2]), OLD(a[1]), OLD(a[0])), MK4(OLD(b[3]), OLD(b[2]), OLD(b[1]), OLD(b[0]))))
 ENSURES(VAL4(r) < BV_P)
 ;
 
 void sm2_z256_modp_mont_sqr(sm2_z256_t r, const sm2_z256_t a)
-REQUIRES(R_OK(a, 32) && W_OK(r, 32))
+REQUIRES(RD_OK(a, 32) && WR_OK(r, 32))
 ASSIGNS(OBJ_UPTO(r, 32))
 ENSURES(V256(r) == __CPROVER_uninterpreted_montmul(MK4(OLD(a[3]), OLD(a[2]), OLD(a[1]), OLD(a[0])), MK4(OLD(a[3]), OLD(a[2]), OLD(a[1]), OLD(a[0]))))
 ENSURES(VAL4(r) < BV_P)
 ;
 
 int sm2_z256_modp_mont_sqrt(sm2_z256_t r, const sm2_z256_t a)
-REQUIRES(R_OK(a, 32) && W_OK(r, 32))
+REQUIRES(RD_OK(a, 32) && WR_OK(r, 32))
 ASSIGNS(OBJ_UPTO(r, 32))
 ENSURES(RET == 1 || RET == 0)
 ENSURES((RET == 1) == (__CPROVER_uninterpreted_hasroot(MK4(OLD(a[3]), OLD(a[2]), OLD(a[1]), OLD(a[0]))) != 0))
@@ -71,7 +71,7 @@ ENSURES(RET == 1 IMPLIES V256(r) == __CPROVER_uninterpreted_root(MK4(OLD(a[3]), 
 ;
 
 int sm2_z256_point_is_on_curve(const SM2_Z256_POINT *P)
-REQUIRES(R_OK(P, sizeof(*P)))
+REQUIRES(RD_OK(P, sizeof(*P)))
 ASSIGNS()
 ENSURES(RET == (ONCURVE(P) ? 1 : 0))
 ;
@@ -79,7 +79,7 @@ ENSURES(RET == (ONCURVE(P) ? 1 : 0))
 #ifdef CONTRACT_IS_AT_INFINITY_RECORDING
 int G_isinf_last; unsigned G_isinf_calls;
 int sm2_z256_point_is_at_infinity(const SM2_Z256_POINT *P)
-REQUIRES(R_OK(P, sizeof(*P)))
+REQUIRES(RD_OK(P, sizeof(*P)))
 ASSIGNS(G_isinf_last, G_isinf_calls)
 ENSURES(RET == (ISINF(P) ? 1 : 0))
 ENSURES(VAL4(P->Z) != 0 IMPLIES RET == 0)
@@ -87,7 +87,7 @@ ENSURES(G_isinf_last == RET && G_isinf_calls == OLD(G_isinf_calls) + 1)
 ;
 #else
 int sm2_z256_point_is_at_infinity(const SM2_Z256_POINT *P)
-REQUIRES(R_OK(P, sizeof(*P)))
+REQUIRES(RD_OK(P, sizeof(*P)))
 ASSIGNS()
 ENSURES(RET == (ISINF(P) ? 1 : 0))
 /* a point with Z != 0 is never reported as infinity */
@@ -96,7 +96,7 @@ ENSURES(VAL4(P->Z) != 0 IMPLIES RET == 0)
 #endif
 
 void sm2_z256_point_set_infinity(SM2_Z256_POINT *P)
-REQUIRES(W_OK(P, sizeof(*P)))
+REQUIRES(WR_OK(P, sizeof(*P)))
 ASSIGNS(OBJ_UPTO((uint8_t *)P, sizeof(*P)))
 ENSURES(VAL4(P->Z) == 0)
 ;
@@ -104,7 +104,7 @@ ENSURES(VAL4(P->Z) == 0)
 /* raw x||y import: coordinates below p, curve test executed on exactly (mont x, mont y, mont 1) and passed;
    the encoding of "infinity" (0,0) is never reported as a usable point (RET 0, not 1) */
 int sm2_z256_point_from_bytes(SM2_Z256_POINT *P, const uint8_t in[64])
-REQUIRES(W_OK(P, sizeof(*P)) && R_OK(in, 64) && SEPARATE(P, in))
+REQUIRES(WR_OK(P, sizeof(*P)) && RD_OK(in, 64) && SEPARATE(P, in))
 ASSIGNS(OBJ_UPTO((uint8_t *)P, sizeof(*P)))
 ENSURES(RET == 1 || RET == 0 || RET == -1)
 ENSURES(RET == 1 IMPLIES BEVAL32(in) < (bv256)BV_P && BEVAL32(in + 32) < (bv256)BV_P)
@@ -114,7 +114,7 @@ ENSURES(RET == 0 IMPLIES BEVAL32(in) == 0 && BEVAL32(in + 32) == 0 && VAL4(P->Z)
 ;
 
 int sm2_z256_point_set_xy(SM2_Z256_POINT *R, const sm2_z256_t x, const sm2_z256_t y)
-REQUIRES(W_OK(R, sizeof(*R)) && R_OK(x, 32) && R_OK(y, 32) && SEPARATE(R, x) && SEPARATE(R, y))
+REQUIRES(WR_OK(R, sizeof(*R)) && RD_OK(x, 32) && RD_OK(y, 32) && SEPARATE(R, x) && SEPARATE(R, y))
 ASSIGNS(OBJ_UPTO((uint8_t *)R, sizeof(*R)))
 ENSURES(RET == 1 || RET == -1)
 ENSURES(RET == 1 IMPLIES VAL4(x) < BV_P && VAL4(y) < BV_P && V256(R->X) == TOMONT(V256(x)) && V256(R->Y) == TOMONT(V256(y)) && POINT_VALID(R))
@@ -122,7 +122,7 @@ ENSURES(RET == 1 IMPLIES VAL4(x) < BV_P && VAL4(y) < BV_P && V256(R->X) == TOMON
 
 /* compressed import: x below p; RET 1 only if the curve equation has a root for x; the root chosen has the requested parity */
 int sm2_z256_point_from_x_bytes(SM2_Z256_POINT *P, const uint8_t x_bytes[32], int y_is_odd)
-REQUIRES(W_OK(P, sizeof(*P)) && R_OK(x_bytes, 32) && SEPARATE(P, x_bytes))
+REQUIRES(WR_OK(P, sizeof(*P)) && RD_OK(x_bytes, 32) && SEPARATE(P, x_bytes))
 ASSIGNS(OBJ_UPTO((uint8_t *)P, sizeof(*P)))
 ENSURES(RET == 1 || RET == 0 || RET == -1)
 ENSURES(RET == 1 IMPLIES BEVAL32(x_bytes) < (bv256)BV_P && V256(P->X) == TOMONT(BEVAL32(x_bytes)) && V256(P->Z) == BV_MONT_ONE)
@@ -133,7 +133,7 @@ ENSURES(RET == 1 IMPLIES VAL4(P->Y) < BV_P)
 /* SEC1 octets.  C12: success means a validated finite point — except the explicit one-byte encoding 00 of the
    point at infinity, which this generic decoder may return and which every key / key-share importer must refuse. */
 int sm2_z256_point_from_octets(SM2_Z256_POINT *P, const uint8_t *in, size_t inlen)
-REQUIRES(W_OK(P, sizeof(*P)) && inlen >= 1 && inlen <= 1024 && R_OK(in, inlen) && SEPARATE(P, in))
+REQUIRES(WR_OK(P, sizeof(*P)) && inlen >= 1 && inlen <= 1024 && RD_OK(in, inlen) && SEPARATE(P, in))
 ASSIGNS(OBJ_UPTO((uint8_t *)P, sizeof(*P)))
 ENSURES(RET == 1 || RET == -1)
 ENSURES(RET == 1 IMPLIES ((in[0] == 0x00 && inlen == 1 && VAL4(P->Z) == 0)
@@ -145,7 +145,7 @@ ENSURES(RET == 1 IMPLIES ((in[0] == 0x00 && inlen == 1 && VAL4(P->Z) == 0)
 
 #ifndef CONTRACT_GET_XY_UF
 int sm2_z256_point_get_xy(const SM2_Z256_POINT *P, uint64_t x[4], uint64_t y[4])
-REQUIRES(R_OK(P, sizeof(*P)) && W_OK(x, 32) && (y == NULL || W_OK(y, 32)))
+REQUIRES(RD_OK(P, sizeof(*P)) && WR_OK(x, 32) && (y == NULL || WR_OK(y, 32)))
 ASSIGNS(OBJ_UPTO(x, 32); y != NULL: OBJ_UPTO(y, 32))
 ENSURES(RET == 1 || RET == 0)
 ENSURES((RET == 0) == ISINF(P))
@@ -157,7 +157,7 @@ ENSURES((RET == 1 && V256(P->Z) == BV_MONT_ONE) IMPLIES V256(x) == FROMMONT(V256
 
 /* C12: compress then decompress returns the same point => the 32 bytes after the prefix are x, the prefix is 02|parity(y) */
 int sm2_z256_point_to_compressed_octets(const SM2_Z256_POINT *P, uint8_t out[33])
-REQUIRES(R_OK(P, sizeof(*P)) && W_OK(out, 33) && SEPARATE(P, out))
+REQUIRES(RD_OK(P, sizeof(*P)) && WR_OK(out, 33) && SEPARATE(P, out))
 ASSIGNS(OBJ_UPTO(out, 33))
 ENSURES(RET == 1 || RET == -1)
 ENSURES((RET == 1) == !ISINF(P))
@@ -166,14 +166,14 @@ ENSURES((RET == 1 && V256(P->Z) == BV_MONT_ONE) IMPLIES BEVAL32(out + 1) == FROM
 ;
 
 int sm2_z256_point_to_bytes(const SM2_Z256_POINT *P, uint8_t out[64])
-REQUIRES(R_OK(P, sizeof(*P)) && W_OK(out, 64) && SEPARATE(P, out))
+REQUIRES(RD_OK(P, sizeof(*P)) && WR_OK(out, 64) && SEPARATE(P, out))
 ASSIGNS(OBJ_UPTO(out, 64))
 ENSURES(RET == (ISINF(P) ? 0 : 1))
 ENSURES((!ISINF(P) && V256(P->Z) == BV_MONT_ONE) IMPLIES BEVAL32(out) == FROMMONT(V256(P->X)) && BEVAL32(out + 32) == FROMMONT(V256(P->Y)))
 ;
 
 int sm2_z256_point_to_uncompressed_octets(const SM2_Z256_POINT *P, uint8_t out[65])
-REQUIRES(R_OK(P, sizeof(*P)) && W_OK(out, 65) && SEPARATE(P, out))
+REQUIRES(RD_OK(P, sizeof(*P)) && WR_OK(out, 65) && SEPARATE(P, out))
 ASSIGNS(OBJ_UPTO(out, 65))
 ENSURES(RET == 1 || RET == -1)
 ENSURES((RET == 1) == !ISINF(P))
@@ -181,7 +181,7 @@ ENSURES((RET == 1 && V256(P->Z) == BV_MONT_ONE) IMPLIES out[0] == 0x04 && BEVAL3
 ;
 
 void sm2_z256_modp_mont_inv(sm2_z256_t r, const sm2_z256_t a)
-REQUIRES(R_OK(a, 32) && W_OK(r, 32))
+REQUIRES(RD_OK(a, 32) && WR_OK(r, 32))
 ASSIGNS(OBJ_UPTO(r, 32))
 ENSURES(VAL4(r) < BV_P)
 ;
